@@ -22,6 +22,7 @@ INST = {
     'c20_trimmed_fallback': '" UTC0 ": one read; unreadable -> trimmed string decoded without extensions -> Ok',
     'c20_no_dirs_posix': '"UTC0" with no directories: no read at all, decoded as POSIX description',
     'c20_empty': '"": refused with Empty, no read',
+    'c20_padded_absolute_is_relative': '" /abs": looked up exactly as given (one candidate under the directory, never "/abs" itself); whitespace is stripped only for the POSIX fallback',
     'c20_relative_3dirs_not_posix': '"X", three directories',
 }
 
@@ -96,9 +97,42 @@ def engine_a_part(ck):
     q.verdict = 'unsat' if ok else 'sat'
     ck.queries.append(q)
     ck.extra['path_template'] = ref['$formatted'][0]
-    if not ok:
-        # decide natively whether the relative-name resolution still reads dir/name in order
-        ck.inconclusive.append('C20 template check failed: ' + '; '.join(why) + ' (structural reading of the MIR; no native replay available for the virtual file system)')
+    # (b) the name that is looked up is the TZ value exactly as given (minus the ':' prefix): in TimeZoneSettings::parse_posix_tz every
+    # call of read_tz_file receives the parameter itself, or Chars::as_str() of chars(parameter) after exactly one next(); in particular
+    # not the whitespace-trimmed string, which is for the POSIX fallback only. (Kani's format stub is blind to the arguments, so the
+    # directory candidates "p<k>" would hide a different name.)
+    ok2, why2 = True, []
+    try:
+        txt = mir.text_of('TimeZoneSettings::parse_posix_tz')
+        calls = re.findall(r'read_tz_file\((?:copy|move) _1, (?:copy|move) (_\d+)\)', txt)
+        if len(calls) != 2:
+            ok2 = False
+            why2.append(f'{len(calls)} call sites of read_tz_file in parse_posix_tz (expected 2: the ":" form and the plain form)')
+        nexts = len(re.findall(r'as std::iter::Iterator>::next\(', txt))
+        for a in calls:
+            if a == '_2':
+                continue
+            d = re.findall(r'(?<![\w.])%s = ([^;]*)' % re.escape(a), txt)
+            src = [x for x in d if 'Chars' in x and '::as_str(' in x]
+            if len(d) != 1 or len(src) != 1 or nexts != 1 or not re.search(r'= core::str::<impl str>::chars\(copy _2\)', txt):
+                ok2 = False
+                why2.append(f'read_tz_file is called with {a} := {d}, which is neither the TZ value itself nor Chars::as_str() after one next()')
+    except M.Unsupported as e:
+        ok2 = False
+        why2.append(str(e))
+    q2 = common.Query('fmt:looked_up_name_is_the_value_as_given', '', 'unsat', 'claim', True, None, 1, 'read_tz_file receives the TZ value as given (or the rest after ":"), never a trimmed or otherwise derived string')
+    q2.verdict = 'unsat' if ok2 else 'sat'
+    ck.queries.append(q2)
+    if not (ok and ok2):
+        # decide natively (real resolution over a virtual file system that logs every path) whether any listed instance deviates
+        nat = common.Native()
+        for name in CASES:
+            r = native_instance(nat, name)
+            if r:
+                ck.violation('structural reading of the MIR failed (' + '; '.join(why + why2) + ') and natively: ' + r[0], r[1])
+                break
+        else:
+            ck.inconclusive.append('C20 structural check failed: ' + '; '.join(why + why2) + ' (no listed instance deviates natively)')
     for f in ex.encoded:
         if f not in ck.functions:
             ck.functions.append(f)
@@ -111,6 +145,7 @@ CASES = {
     'c20_localtime': ('localtime', ['/a'], False), 'c20_colon_relative_2dirs': (':X', ['/a', '/b'], False), 'c20_relative_2dirs_not_posix': ('X', ['/a', '/b'], False),
     'c20_relative_3dirs_not_posix': ('X', ['/a', '/b', '/c'], False), 'c20_absolute': ('/abs', ['/a'], False), 'c20_colon_absolute': (':/abs', ['/a'], False),
     'c20_trimmed_fallback': (' UTC0 ', ['/a'], True), 'c20_no_dirs_posix': ('UTC0', [], True), 'c20_empty': ('', ['/a'], False),
+    'c20_padded_absolute_is_relative': (' /abs', ['/a'], False),
 }
 
 
